@@ -31,6 +31,9 @@ import threading
 ROOT = os.path.dirname(os.path.dirname(os.path.abspath(__file__)))
 
 
+RES_NAME = "RESULTS"
+
+
 def sh(cmd, **kw):
     return subprocess.run(cmd, shell=True, capture_output=True, text=True, **kw)
 
@@ -89,8 +92,99 @@ CMP_SWAP = {ast.Eq: ast.NotEq, ast.NotEq: ast.Eq, ast.Lt: ast.LtE, ast.LtE: ast.
             ast.GtE: ast.Gt, ast.Is: ast.IsNot, ast.IsNot: ast.Is, ast.In: ast.NotIn, ast.NotIn: ast.In}
 
 
+OPS2 = [False]     # --ops2: the second operator set instead of the first
+
+
+def sites2(func_node):
+    """Second operator set: argument order, dropped keyword arguments, a parameter passed in place of another,
+    `is` <-> `==`, narrowed except clauses, loops cut after the first element, augmented assignments dropped,
+    a local assigned None, string constants that are compared / used as keys emptied."""
+    params = [a.arg for a in func_node.args.args + func_node.args.kwonlyargs if a.arg not in ("self", "cls")] \
+        if isinstance(func_node, (ast.FunctionDef, ast.AsyncFunctionDef)) else []
+    out = []
+    for node in ast.walk(func_node):
+        if isinstance(node, ast.Call):
+            plain = [a for a in node.args if not isinstance(a, ast.Starred)]
+            if len(plain) >= 2 and len(plain) == len(node.args):
+                out.append(("swap-args", node))
+            for i, kw in enumerate(node.keywords):
+                if kw.arg is not None:
+                    out.append(("drop-kwarg:%d" % i, node))
+            for i, a in enumerate(node.args):
+                if isinstance(a, ast.Name) and a.id in params:
+                    others = [p for p in params if p != a.id]
+                    if others:
+                        out.append(("param-for-param:%d:%s" % (i, others[(params.index(a.id)) % len(others)]), node))
+        elif isinstance(node, ast.Compare) and isinstance(node.ops[0], (ast.Is, ast.IsNot, ast.Eq, ast.NotEq)):
+            # (not against literals: `x is 3` draws a SyntaxWarning, which is no behavioural change to detect)
+            if not isinstance(node.comparators[0], ast.Constant) and not isinstance(node.left, ast.Constant):
+                out.append(("is-eq", node))
+            for c in node.comparators:
+                if isinstance(c, ast.Constant) and isinstance(c.value, str) and c.value:
+                    out.append(("str-empty", c))
+        elif isinstance(node, ast.ExceptHandler):
+            if node.type is None or (isinstance(node.type, ast.Name) and node.type.id == "BaseException"):
+                out.append(("except-narrow", node))
+        elif isinstance(node, ast.For):
+            out.append(("loop-once", node))
+        elif isinstance(node, ast.AugAssign):
+            out.append(("drop-augassign", node))
+        elif isinstance(node, ast.Assign) and len(node.targets) == 1 and isinstance(node.targets[0], ast.Name) \
+                and not (isinstance(node.value, ast.Constant) and node.value.value is None):
+            out.append(("assign-none", node))
+        elif isinstance(node, ast.Subscript) and isinstance(node.slice, ast.Constant) and isinstance(node.slice.value, str) \
+                and node.slice.value:
+            out.append(("str-empty", node.slice))
+        elif isinstance(node, ast.Dict):
+            for k in node.keys:
+                if isinstance(k, ast.Constant) and isinstance(k.value, str) and k.value:
+                    out.append(("str-empty", k))
+    return out
+
+
+def apply_mutation2(kind, n, mod):
+    if kind == "swap-args":
+        n.args[0], n.args[1] = n.args[1], n.args[0]
+    elif kind.startswith("drop-kwarg:"):
+        del n.keywords[int(kind.split(":")[1])]
+    elif kind.startswith("param-for-param:"):
+        _, i, name = kind.split(":")
+        n.args[int(i)] = ast.Name(id=name, ctx=ast.Load())
+    elif kind == "is-eq":
+        n.ops[0] = {ast.Is: ast.Eq, ast.IsNot: ast.NotEq, ast.Eq: ast.Is, ast.NotEq: ast.IsNot}[type(n.ops[0])]()
+    elif kind == "str-empty":
+        n.value = ""
+    elif kind == "except-narrow":
+        n.type = ast.Name(id="Exception", ctx=ast.Load())
+    elif kind == "loop-once":
+        n.body = n.body + [ast.Break()]
+    elif kind == "drop-augassign":
+        return replace_stmt(mod, n, [ast.Pass()])
+    elif kind == "assign-none":
+        n.value = ast.Constant(None)
+    return True
+
+
 def mutants_of_function(mod_tree, func_node):
     """Yield (description, mutated module source) for single-site mutations inside func_node."""
+    if OPS2[0]:
+        sites = sites2(func_node)
+        for kind, node in sites:
+            node._tvm_mark = True
+            m2 = copy.deepcopy(mod_tree)
+            del node._tvm_mark
+            target = next(n for n in ast.walk(m2) if getattr(n, "_tvm_mark", False))
+            del target._tvm_mark
+            if not apply_mutation2(kind, target, m2):
+                continue
+            ast.fix_missing_locations(m2)
+            try:
+                src = ast.unparse(m2)
+                compile(src, "<mutant>", "exec")
+            except Exception:
+                continue
+            yield "%s@%d" % (kind, getattr(node, "lineno", 0)), src
+        return
     sites = []
     for node in ast.walk(func_node):
         if isinstance(node, ast.Compare) and type(node.ops[0]) in CMP_SWAP:
@@ -327,7 +421,7 @@ def cross_check(m, others):
 
 
 def cross_main(args):
-    path = os.path.join(ROOT, "mutation", "RESULTS.json")
+    path = os.path.join(ROOT, "mutation", RES_NAME + ".json")
     allr = json.load(open(path))
     key = lambda r: (r["prop"], r["file"], r["func"], r["mutation"])  # noqa: E731
     want = {key(r) for r in allr if r["verdict"] in ("NOT-CAUGHT", "inconclusive") and
@@ -367,7 +461,7 @@ def cross_main(args):
 
 
 def try_main(args):
-    allr = json.load(open(os.path.join(ROOT, "mutation", "RESULTS.json")))
+    allr = json.load(open(os.path.join(ROOT, "mutation", RES_NAME + ".json")))
     r = next(x for x in allr if x["id"] == args.try_id)
     key = lambda m: (m["prop"], m["file"], m["func"], m["mutation"])  # noqa: E731
     m = next(m for m in plan([r["prop"]], 100000, args.seed) if key(m) == key(r) and
@@ -391,10 +485,10 @@ def try_main(args):
 
 def write_md(allr):
     triage = {}
-    tp = os.path.join(ROOT, "mutation", "TRIAGE.json")
+    tp = os.path.join(ROOT, "mutation", "TRIAGE2.json" if OPS2[0] else "TRIAGE.json")
     if os.path.exists(tp):
         triage = json.load(open(tp))
-    with open(os.path.join(ROOT, "mutation", "RESULTS.md"), "w") as f:
+    with open(os.path.join(ROOT, "mutation", RES_NAME + ".md"), "w") as f:
         f.write("# Syntactic mutants of the anchored code vs. the checks\n\n"
                 "Produced by `tools/mutation_run.py` (see its docstring) against /repo HEAD.  A mutant is generated inside "
                 "every function an anchor of the property points into; those the repository's own suite kills are "
@@ -441,6 +535,7 @@ def main():
     ap.add_argument("--resume", action="store_true", help="skip mutants already in mutation/journal.jsonl")
     ap.add_argument("--cross", action="store_true", help="second phase: run what a check let through against the "
                     "checks of the other properties anchored in the same file")
+    ap.add_argument("--ops2", action="store_true", help="use the second operator set (results in mutation/RESULTS2.*)")
     ap.add_argument("--all", action="store_true", help="with --cross: re-check what no check caught so far against "
                     "the quick checks of ALL properties (own first, then those anchored in the same file, then the rest)")
     ap.add_argument("--render", action="store_true", help="only re-render RESULTS.md from RESULTS.json + TRIAGE.json")
@@ -448,10 +543,14 @@ def main():
                     "run the check given with --check (default: its property's) against it, printing the output")
     ap.add_argument("--check", default="")
     args = ap.parse_args()
+    OPS2[0] = args.ops2
+    if args.ops2:
+        global RES_NAME
+        RES_NAME = "RESULTS2"
     if args.try_id:
         return try_main(args)
     if args.render:
-        return write_md(json.load(open(os.path.join(ROOT, "mutation", "RESULTS.json"))))
+        return write_md(json.load(open(os.path.join(ROOT, "mutation", RES_NAME + ".json"))))
     if args.cross:
         return cross_main(args)
     props = [p for p in args.props.split(",") if p]
@@ -459,10 +558,10 @@ def main():
     print("planned %d mutants" % len(todo), flush=True)
     results = []
     os.makedirs(os.path.join(ROOT, "mutation"), exist_ok=True)
-    journal = open(os.path.join(ROOT, "mutation", "journal.jsonl"), "a")
+    journal = open(os.path.join(ROOT, "mutation", "journal%s.jsonl" % ("2" if OPS2[0] else "")), "a")
     if args.resume:
         done = set()
-        for line in open(os.path.join(ROOT, "mutation", "journal.jsonl")):
+        for line in open(os.path.join(ROOT, "mutation", "journal%s.jsonl" % ("2" if OPS2[0] else ""))):
             r = json.loads(line)
             done.add((r["prop"], r["file"], r["func"], r["mutation"]))
             results.append(r)
@@ -482,7 +581,7 @@ def main():
             shutil.rmtree(wt, ignore_errors=True)
     outdir = os.path.join(ROOT, "mutation")
     os.makedirs(outdir, exist_ok=True)
-    path = os.path.join(outdir, "RESULTS.json")
+    path = os.path.join(outdir, RES_NAME + ".json")
     old = {}
     if os.path.exists(path):
         old = {(r["prop"], r["file"], r["func"], r["mutation"]): r for r in json.load(open(path))}
